@@ -338,6 +338,8 @@ class SymbolicTensorNetwork:
                 axes_map.remove(num_open_axes_orig + joinax[1])
         # to-be deleted open axes
         del_axes = [i*num_open_axes_orig + joinax[i] for joinax in join_axes for i in range(2)]
+        # an open axis joined several times must be deleted only once
+        del_axes = list(dict.fromkeys(del_axes))
         # remove to-be deleted open axes references from bonds
         for delax in del_axes:
             bid = tensor_open_axes.bids[delax]
